@@ -14,6 +14,7 @@ import (
 	"time"
 
 	"github.com/bmeg/grip/engine"
+	"github.com/bmeg/grip/engine/core"
 	"github.com/bmeg/grip/engine/pipeline"
 	"github.com/bmeg/grip/gdbi"
 	"github.com/bmeg/grip/gripql"
@@ -28,7 +29,7 @@ func TestMain(m *testing.M) {
 	code := pbt.Main(m, pbt.Meta{
 		Property: "C12",
 		Level:    "exploration",
-		Rule: "loop programs from templates grounded in the iteration documentation and the upstream repeat tests (V(S)[.set(c,0)].as(s).mark(m) body .increment($s.c).has(lt($s.c,k)).jump(m,cond?,emit); filter-before-body variant; forward jump over a body; two jumps to one mark; emit on/off; k<=4; bodies of out/in/both/outE.out/hasLabel/as) on chains, small DAGs, cycles bounded by the counter and fan-outs that put >50 and >1000 travelers in flight; every case is run R times under GOMAXPROCS in {1,2,4,16} with a generated consumer pause pattern; the row multiset must equal the iterative reference semantics every time and the stream must close (hangs judged by goroutine-dump quiescence with the protocol's polling loops named as pollers). " +
+		Rule: "loop programs from templates grounded in the iteration documentation and the upstream repeat tests (V(S)[.set(c,0)].as(s).mark(m) body .increment($s.c).has(lt($s.c,k)).jump(m,cond?,emit); filter-before-body variant; forward jump over a body; two jumps to one mark; emit on/off; k<=4; bodies of out/in/both/outE.out/hasLabel/as) on chains, small DAGs, cycles bounded by the counter and fan-outs that put >50 and >1000 travelers in flight; every case is run R times under GOMAXPROCS in {1,2,4,16} with a generated consumer pause pattern, a generated capacity of the channels between the steps (the server's 5000 or 1/2/7/50) and, for one case in six, a backend that answers every lookup 120 or 250 ms late; TestVolume puts more travelers into one generation than all bounded buffers of the cycle hold (27000 with the server's capacity); the row multiset must equal the iterative reference semantics every time and the stream must close (hangs judged by goroutine-dump quiescence with the protocol's polling loops named as pollers). " +
 			"Non-trivial: >=2 passes through the cycle and >=2 travelers in flight; distinct = (graph, program) text.",
 		Assumptions: []string{
 			"interleavings are sampled (GOMAXPROCS sweep, repetitions, consumer pauses), not enumerated; a failure seen in some repetitions is reported with its frequency",
@@ -68,6 +69,8 @@ type Case struct {
 	// manager do with their own constant. The loop's termination may not depend on it:
 	// the queue between jump and mark is what takes up any number of travelers.
 	BufSize int `json:"bufsize,omitempty"`
+	// LatencyMS is the latency added to every element lookup of the backend (0 = none).
+	LatencyMS int `json:"latency_ms,omitempty"`
 }
 
 // run starts the compiled traversal like pipeline.Run does, with the case's channel capacity.
@@ -157,6 +160,10 @@ func runCase(t pbt.TB, c Case) {
 	gi, lerr := gripx.Load(gripx.DB("badger"), gripx.FreshName(), c.Graph)
 	if lerr != nil {
 		t.Fatalf("INFRA: load: %v", lerr)
+	}
+	if c.LatencyMS > 0 {
+		gi = &slowGraph{GraphInterface: gi, d: time.Duration(c.LatencyMS) * time.Millisecond}
+		pbt.Class(t, "backend-latency>0")
 	}
 	pipe, cerr := gi.Compiler().Compile(model.Protos(c.Steps), nil)
 	if cerr != nil {
@@ -411,6 +418,12 @@ func TestLoops(t *testing.T) {
 		c.Procs = rapid.SampledFrom([][]int{{1, 16}, {2, 4}, {1, 2, 4, 16}, {16}}).Draw(rt, "procs")
 		c.Pauses = rapid.SampledFrom([][]int{nil, {0, 0, 50}, {200}, {0, 1000, 0, 0}}).Draw(rt, "pauses")
 		c.BufSize = rapid.SampledFrom([]int{0, 0, 1, 2, 7, 50}).Draw(rt, "bufsize")
+		if len(g.V) <= 12 && rapid.IntRange(0, 5).Draw(rt, "slow") == 0 {
+			// a slow backend: every pass takes the latency, so one GOMAXPROCS value, one run
+			c.LatencyMS = rapid.SampledFrom([]int{120, 250}).Draw(rt, "latency")
+			c.Procs = c.Procs[:1]
+			c.Repeat = 1
+		}
 		pbt.Current(rt, c)
 		if pbt.WantSample(rt) {
 			pbt.Sample(rt, map[string]interface{}{"program": model.TravString(c.Steps), "vertices": len(g.V), "edges": len(g.E), "procs": c.Procs})
@@ -483,4 +496,57 @@ func TestVolume(t *testing.T) {
 		}
 		runCase(rt, c)
 	})
+}
+
+// slowGraph adds a fixed latency to every element lookup of the wrapped graph, the way a
+// remote backend does: requests are answered in order, each one `d` after it was made
+// (throughput is not limited, lookups overlap). Exactness and termination of a loop may
+// not depend on how long a traveler or a shutdown signal takes to go round the cycle.
+type slowGraph struct {
+	gdbi.GraphInterface
+	d time.Duration
+}
+
+func (s *slowGraph) Compiler() gdbi.Compiler { return core.NewCompiler(s, core.IndexStartOptimize) }
+
+type stamped struct {
+	r  gdbi.ElementLookup
+	at time.Time
+}
+
+func (s *slowGraph) delay(req chan gdbi.ElementLookup) chan gdbi.ElementLookup {
+	out := make(chan gdbi.ElementLookup, cap(req))
+	mid := make(chan stamped, 1<<16)
+	go func() {
+		defer close(mid)
+		for r := range req {
+			mid <- stamped{r, time.Now()}
+		}
+	}()
+	go func() {
+		defer close(out)
+		for m := range mid {
+			if w := s.d - time.Since(m.at); w > 0 {
+				time.Sleep(w)
+			}
+			out <- m.r
+		}
+	}()
+	return out
+}
+
+func (s *slowGraph) GetVertexChannel(ctx context.Context, req chan gdbi.ElementLookup, load bool) chan gdbi.ElementLookup {
+	return s.GraphInterface.GetVertexChannel(ctx, s.delay(req), load)
+}
+func (s *slowGraph) GetOutChannel(ctx context.Context, req chan gdbi.ElementLookup, load bool, emitNull bool, l []string) chan gdbi.ElementLookup {
+	return s.GraphInterface.GetOutChannel(ctx, s.delay(req), load, emitNull, l)
+}
+func (s *slowGraph) GetInChannel(ctx context.Context, req chan gdbi.ElementLookup, load bool, emitNull bool, l []string) chan gdbi.ElementLookup {
+	return s.GraphInterface.GetInChannel(ctx, s.delay(req), load, emitNull, l)
+}
+func (s *slowGraph) GetOutEdgeChannel(ctx context.Context, req chan gdbi.ElementLookup, load bool, emitNull bool, l []string) chan gdbi.ElementLookup {
+	return s.GraphInterface.GetOutEdgeChannel(ctx, s.delay(req), load, emitNull, l)
+}
+func (s *slowGraph) GetInEdgeChannel(ctx context.Context, req chan gdbi.ElementLookup, load bool, emitNull bool, l []string) chan gdbi.ElementLookup {
+	return s.GraphInterface.GetInEdgeChannel(ctx, s.delay(req), load, emitNull, l)
 }
